@@ -6,8 +6,12 @@ Template syntax (lines starting with //@ inside a .tmpl.rs file):
   //@  rewrite /<regex>/ => /<replacement>/          (applied to the extracted text, in order)
   //@  spec <verus clause line>                      (requires / ensures / decreases lines, copied verbatim
   //@                                                 between the signature and the body)
+  //@  strip_cfg <feature>                          (drop items guarded by #[cfg(feature = "<feature>")]: what a build without
+  //@                                                 that feature compiles)
   //@  body_prefix <text>                           (proof hint placed right after the opening brace of the body; may only
   //@                                                 mention parameters, so it cannot depend on how the body computes)
+  //@  loop_prefix <n> <text>                       (proof-only text - `broadcast use ...;` - placed right after the opening brace
+  //@                                                 of the n-th loop body: Verus verifies loop bodies separately)
   //@  loop <n> <verus clause line>                  (invariant / decreases lines put in front of the body of
   //@                                                 the n-th loop (0-based, in text order) of the function)
   //@end
@@ -57,6 +61,39 @@ def _loops(clean_body):
     return res
 
 
+def strip_cfg(text, feature):
+    """Remove every `#[cfg(feature = "<feature>")]` attribute together with the item it guards (a parameter, argument,
+    struct-expression field or statement: everything up to and including the first `,` or `;` at bracket depth 0, or up
+    to the closing bracket of the enclosing list). This is what rustc does in a build without that feature."""
+    attr = re.compile(r'#\[cfg\(feature\s*=\s*"%s"\)\]\s*' % re.escape(feature))
+    while True:
+        m = attr.search(text)
+        if not m:
+            return text
+        i = m.end()
+        depth = 0
+        while i < len(text):
+            ch = text[i]
+            if ch in "([{":
+                depth += 1
+            elif ch in ")]}":
+                if depth == 0:
+                    break
+                depth -= 1
+                if depth == 0 and ch == "}" :
+                    # a block statement (if ... { } / { ... }) ends here unless followed by else / method call
+                    j = i + 1
+                    rest = text[j:].lstrip()
+                    if not (rest.startswith("else") or rest.startswith(".") or rest.startswith("?") or rest.startswith(";") or rest.startswith(",")):
+                        i += 1
+                        break
+            elif ch in ",;" and depth == 0:
+                i += 1
+                break
+            i += 1
+        text = text[:m.start()] + text[i:]
+
+
 def expand_template(scratch, tmpl_path):
     lines = open(tmpl_path).read().split("\n")
     out = []
@@ -66,7 +103,7 @@ def expand_template(scratch, tmpl_path):
         line = lines[i]
         if line.strip().startswith("//@extract"):
             args = dict(a.split("=", 1) for a in shlex.split(line.strip()[len("//@extract"):]))
-            rewrites, specs, loops, prefix = [], [], {}, []
+            rewrites, specs, loops, prefix, loop_prefix, strip = [], [], {}, [], {}, []
             i += 1
             while not lines[i].strip().startswith("//@end"):
                 l = lines[i].strip()
@@ -78,8 +115,13 @@ def expand_template(scratch, tmpl_path):
                     rewrites.append((m.group(1), m.group(2)))
                 elif l.startswith("spec "):
                     specs.append(l[5:])
+                elif l.startswith("strip_cfg "):
+                    strip.append(l[len("strip_cfg "):].strip())
                 elif l.startswith("body_prefix "):
                     prefix.append(l[len("body_prefix "):])
+                elif l.startswith("loop_prefix "):
+                    m = re.match(r"loop_prefix (\d+) (.*)$", l)
+                    loop_prefix.setdefault(int(m.group(1)), []).append(m.group(2))
                 elif l.startswith("loop "):
                     m = re.match(r"loop (\d+) (.*)$", l)
                     loops.setdefault(int(m.group(1)), []).append(m.group(2))
@@ -89,6 +131,8 @@ def expand_template(scratch, tmpl_path):
                     raise AssertionError("bad template directive: " + l)
                 i += 1
             text, line_no = fn_text(scratch, args["file"], args["fn"], args.get("within"))
+            for feat in strip:
+                text = strip_cfg(text, feat)
             for rx, rep in rewrites:
                 text, n = re.subn(rx, rep, text)
                 if n == 0:
@@ -112,14 +156,17 @@ def expand_template(scratch, tmpl_path):
                 sig = re.sub(r"\bfn\s+" + re.escape(args["fn"]) + r"\b", "fn " + args["as"], sig, count=1)
             sig = _name_return(sig, args.get("ret", "ret"))
             # loop clauses
-            if loops:
+            if loops or loop_prefix:
                 cb = _strip_comments_keep_layout(body)
                 opens = _loops(cb)
-                for n in sorted(loops, reverse=True):
+                for n in sorted(set(loops) | set(loop_prefix), reverse=True):
                     if n >= len(opens):
                         raise Undecided("loop %d not found in %s::%s (code shape changed)" % (n, args["file"], args["fn"]))
                     pos = opens[n]
-                    body = body[:pos] + "\n" + "\n".join("        " + c for c in loops[n]) + "\n    " + body[pos:]
+                    if n in loop_prefix:   # proof-only text right after the loop body's opening brace
+                        body = body[:pos + 1] + " " + " ".join(loop_prefix[n]) + " " + body[pos + 1:]
+                    if n in loops:
+                        body = body[:pos] + "\n" + "\n".join("        " + c for c in loops[n]) + "\n    " + body[pos:]
             if prefix:
                 body = "{\n        " + "\n        ".join(prefix) + body[1:]
             vis = args.get("vis", "")
